@@ -353,10 +353,12 @@ def summaries(t, m, report):
         except Exception:
             pass            # writing is C02's business
         try:
-            import h5py
-            with h5py.File(src_h5, 'w') as fh:
-                t.to_hdf5(fh, 'verif')
-            srcs.append(src_h5)
+            # quick tier: the HDF5 form for every third content (all of them in the thorough tier)
+            if not _QUICK or O.content_key(t) % 3 == 0:
+                import h5py
+                with h5py.File(src_h5, 'w') as fh:
+                    t.to_hdf5(fh, 'verif')
+                srcs.append(src_h5)
         except Exception:
             pass            # ... or C01's
         for src in srcs:      # the commands read either BIOM format
@@ -409,8 +411,12 @@ def spec(depth, loaded=True):
                   label='d%d' % depth)
 
 
+_QUICK = False
+
+
 def run(run):
-    global _TMP
+    global _TMP, _QUICK
+    _QUICK = run.quick
     import shutil
     depth = 2 if run.quick else 3
     _TMP = tempfile.mkdtemp(prefix='verif-c19-')
